@@ -143,6 +143,11 @@ CO_ERR COSdoResponse(CO_SDO *srv)
     } else if (srv->Blk.State == BLK_DNWAIT) {
         if ((cmd & 0xE3) == 0xC1) {
             result = COSdoEndDownloadBlock(srv);
+        } else if (srv->Buf.Num > 0) {
+            /* the last segment is received already (only the data of the
+             * last block stays in the buffer): no further segment allowed */
+            COSdoAbort(srv, CO_SDO_ERR_CMD);
+            COSdoAbortReq(srv);
         } else {
             srv->Blk.State = BLK_DOWNLOAD;
             result = COSdoDownloadBlock(srv);
